@@ -44,6 +44,9 @@ ASSUMPTIONS = [
     "absence is never checked; extreme values are not demanded of reporting data",
     "billing classes receive billing-cycle reads only (monthly calendars of 28..32-day periods, or ~61-day periods in the "
     "bi-monthly gap family); sub-daily meter data is never fed to the daily class (gap smearing belongs to C08)",
+    "a billing read whose value is NaN is a period boundary with unknown usage (the statement's rule: a timestamp's period "
+    "runs up to the next timestamp): its days lack valid usage, the neighbouring periods keep theirs (family 'billing NaN "
+    "reads', keyed separately; the resulting loss/smearing of the neighbouring read is C08's subject)",
     "billing from_series: the temperature series extends through the closing read's timestamp (otherwise from_series trims "
     "the closing read as misaligned)",
     "classes under test: opendsm.eemeter Daily/Billing/Hourly x Baseline/Reporting data classes (the legacy CalTRACK hourly "
@@ -344,7 +347,7 @@ def _key(case, **kw):
     elif fam == "nodata":
         k = {"fam": fam}
     elif fam == "bgap":
-        k = {"cls": case["cls"], "fam": fam, "gap": "nan_read_" + case.get("regime", "monthly")}
+        k = {"cls": case["cls"], "fam": fam}  # one root cause: NaN reads are dropped before periods are formed
         kw.pop("criterion", None)
     else:
         k = {"cls": case["cls"], "role": case["role"], "fam": fam if fam == "tonly" else "main"}
@@ -410,7 +413,7 @@ def run_case(case):
             stats[f"obs_{c}"] = 1
     for b in expected["bands"]:
         stats["band_" + b] = 1
-    if expected["bands"]:
+    if any(b != "dst_zone_margin" for b in expected["bands"]):  # at least one verdict left open
         stats["cases_with_band"] = 1
     for c, req in expected["warn_required"].items():
         if req:
@@ -454,7 +457,9 @@ def grid_cases(tier):
                     for ghi in ghis:
                         for n in SPANS:
                             for m in m_values(n):
-                                combos = [("none", "interior")] if m == 0 else [(w, p) for w in whats(kind) for p in places]
+                                combos = [("none", "interior")] if m == 0 else [
+                                    (w, p) for w in whats(kind) for p in places
+                                    if p != "month" or month_block(START, n, m) is not None]  # block must fit one month
                                 for what, place in combos:
                                     c = {"fam": "grid", "cls": kind, "role": role, "fuel": fuel, "entry": entry, "feed": feed,
                                          "N": n, "m": m, "what": what, "place": place}
